@@ -49,7 +49,7 @@ class Derivate:
         matrix = heavy.Calculus.derivate_nonrational_bezier(vector)
         ctrlpoints = tuple(np.dot(matrix, curve.ctrlpoints))
         newcurve = curve.__class__(vector[1:-1], ctrlpoints)
-        newcurve.clean()
+        newcurve.clean(tolerance=0)  # Only exact simplifications
         return newcurve
 
     @staticmethod
